@@ -212,7 +212,7 @@ class Impl:
         g.move = wrapped
         err = None
         try:
-            f = [float(Fraction(a)) for a in args if a[0] in "-0123456789"]
+            f = [] if shape in ("polyline", "spline") else [float(Fraction(a)) for a in args]
             kw = {}
             if shape == "polyline":
                 pts = [tuple(float(Fraction(c)) for c in p.split(";")) for p in args]
@@ -234,11 +234,14 @@ class Impl:
                 g.trace.spline(pts)
             else:
                 raise RuntimeError("harness: unknown shape " + shape)
+        except RuntimeError:
+            raise
         except Exception as e:  # noqa
             err = type(e).__name__
         finally:
             del g.move
         self.last_trace_error = err
+        self.trace_errors = getattr(self, "trace_errors", []) + ([f"{shape}:{err}"] if err else [])
         return calls
 
     def _move_args(self, args):
